@@ -30,9 +30,13 @@ HAND = [
     "M: (a=INT | 'x' b=A)* ('y' c+=A[/,|;/ eolterm])? ; A: n=ID ('.' ns+=ID)+ ;",
     "M: xs+=X; X: Y | Z; Y: 'y' r=[X:ID|+pm:^xs] ; Z: 'z' name=ID q=[Z:ID|'fix'~xs, ..xs.(xs)*, parent(M).xs] ;",
     "reference textx as tx  M: a=INT;",
+    # rule bodies that are a single (suppressed) rule reference, directly and through a chain
+    "Wrap: Body-; Body: val=INT;",
+    "M: w=Wrap; Wrap: Link; Link: Body-; Body: val=INT | 'x' Wrap;",
+    "M: x=A y=B; A: B; B: C; C: /c+/ | INT;",
 ]
 BAD_PARAMS = ["[foo]", "[ws]", "[split]", "[split='']", "[skipws='x']", "[ws=]", "[noskipws, noskipws, ws='a', ws='b']", "[split=' ', ws='\\\\q']"]
-BAD_REGEX = ["/(/", "/[/", "/*/", "/(?P<a>x)(?P<a>y)/", "/\\\\/"]
+BAD_REGEX = ["/(/", "/[/", "/*/", "/(?P<a>x)(?P<a>y)/", "/\\\\/", "/a{4294967296}/", "/[0-9]{1,99999999999}/", "/" + "(" * 120 + "a" + ")" * 120 + "/", "/(?i)a(?z)/"]
 BAD_RREL = ["[M:ID|]", "[M:ID|^]", "[M:ID|+x:a]", "[M:ID|a..b]", "[M:ID|a*.*]", "[M:ID|parent()]", "[M:ID|(a]", "[M:ID|'x'~]", "[M|ID|a", "[M:ID|~]"]
 TOKEN = re.compile(r"""\s+|//[^\n]*|/\*.*?\*/|(?P<tok>'(?:\\'|[^'])*'|"(?:\\"|[^"])*"|/(?:\\/|[^/\s])+/|\w+|[*+?#]=|[^\s\w])""", re.S)
 
